@@ -7,4 +7,4 @@ RULE = ("for every item and variant: values from FillRandom and hostile read-bac
 
 
 def run(ctx):
-    codec.simple_check(ctx, "c05", RULE, [("types", "types", 150), ("values", "values", 5000), ("round trips", "json_roundtrips_ok", 4000)], 60, 400)
+    codec.simple_check(ctx, "c05", RULE, [("types", "types", 150), ("values", "values", 5000), ("round trips", "json_roundtrips_ok", 4000)], 60, 400, random_quick=3, random_thorough=30)
